@@ -7,19 +7,29 @@
      precision, truncated toward zero) is non-negative and its sum with the offset lies in
      0 .. 2^63, the result is exactly that sum."
 
-  The Spec only speaks where double precision is EXACT: when the physical value and the
-  mathematical product `value * quantization` both have at most 53 significant bits, the
-  double-precision product is the mathematical product, whatever the rounding mode.  (For
-  the remaining inputs the rounding model of Model/Fixed.lean is compared with the hardware.)
+  "In double precision" is spelled out from the IEEE 754 definition of the default rounding
+  (`nearestDouble`: the nearest representable number, ties to the even significand), stated
+  on values, not on significand / exponent pairs as the model of the conversion code
+  (Model/Fixed.lean) does.  An `f32` quantization is a double exactly.
 -/
 import DltVerif.Model.Types
 
 namespace Dlt.Spec
 
-/-- `n` is `c * 2^j` with `c < 2^53`: it has at most 53 significant bits, so it is a double
-    (all numbers here are below `2^200`) -/
-def fits53 (n : Nat) : Bool :=
-  (List.range 200).any fun j => n % 2 ^ j == 0 && decide (n / 2 ^ j < 2 ^ 53)
+/-- number of binary digits of `n` -/
+def bits (n : Nat) : Nat := if n = 0 then 0 else Nat.log2 n + 1
+
+/-- IEEE 754 `roundTiesToEven` of a non-negative integer to binary64, the exponent range aside
+    (the numbers of C18 never leave it): the doubles in the binade of `n` are the multiples of
+    `u = 2^(bits n - 53)`; the result is the multiple of `u` nearest to `n`, and of two equally
+    near ones the one whose significand is even.  Up to 53 bits `u = 1` and the result is `n`. -/
+def nearestDouble (n : Nat) : Nat :=
+  let u := 2 ^ (bits n - 53)
+  let lo := n / u * u
+  let hi := lo + u
+  if n - lo < hi - n then lo
+  else if hi - n < n - lo then hi
+  else if (lo / u) % 2 = 0 then lo else hi
 
 /-- a finite `f32` given by its bits as `(negative, m, e)` with value `m * 2^e`;
     `none` for infinities and NaN -/
@@ -68,11 +78,13 @@ def realValue (a : Argument) : RealExpect :=
       match f32Dyadic fp.quantization.toNat with
       | none => .unspecified
       | some (qneg, m, e) =>
-        let mag := v.natAbs * m
-        if !fits53 v.natAbs || !fits53 mag then .unspecified
-        else if mag ≠ 0 ∧ ((v < 0) != qneg) then .unspecified      -- negative product
+        -- `value as f64`, then the double product: the exact product of two doubles, rounded
+        -- (rounding commutes with the scaling by `2^e`)
+        let x := nearestDouble v.natAbs
+        let y := nearestDouble (x * m)
+        if y ≠ 0 ∧ ((v < 0) != qneg) then .unspecified      -- negative product
         else
-          let p : Nat := if e ≥ 0 then mag * 2 ^ e.toNat else mag / 2 ^ (-e).toNat
+          let p : Nat := if e ≥ 0 then y * 2 ^ e.toNat else y / 2 ^ (-e).toNat
           let sum : Int := (p : Int) + offsetOf fp.offset
           if 0 ≤ sum ∧ sum < 2 ^ 63 then .exactly sum.toNat else .unspecified
   | _, _ => .nothing
